@@ -38,11 +38,11 @@ import (
 // state they meet (e.g. overlay commit at depth 0) are skipped, so any
 // sub-sequence of a history is again a history (used by the shrinker).
 type op struct {
-	Op string `json:"op"`
-	K  string `json:"k,omitempty"`
-	V  string `json:"v,omitempty"`
-	K2 string `json:"k2,omitempty"`
-	N  int    `json:"n,omitempty"`
+	Op string  `json:"op"`
+	K  *string `json:"k,omitempty"` // hex; "" is the empty key
+	V  *string `json:"v,omitempty"` // hex; "" is the empty value
+	K2 *string `json:"k2,omitempty"`
+	N  int     `json:"n,omitempty"`
 
 	k, v, k2 []byte
 }
@@ -227,15 +227,14 @@ func sizeFit(c *config, universe [][]byte, maxValue int) {
 
 func mk(kind string, k, v, k2 []byte, n int) op {
 	o := op{Op: kind, N: n, k: k, v: v, k2: k2}
-	if k != nil {
-		o.K = lab.Hex(k)
+	hexp := func(b []byte) *string {
+		if b == nil {
+			return nil
+		}
+		s := lab.Hex(b)
+		return &s
 	}
-	if v != nil {
-		o.V = lab.Hex(v)
-	}
-	if k2 != nil {
-		o.K2 = lab.Hex(k2)
-	}
+	o.K, o.V, o.K2 = hexp(k), hexp(v), hexp(k2)
 	return o
 }
 
